@@ -102,6 +102,22 @@ func (w *World) VerifyLemma(l *Lemma, prop string) (*Unit, error) {
 	u := NewUnit(w, "lemma."+l.Name, prop)
 	heap := u.newHeap(&Link{kind: "entry"})
 	env := &SpecEnv{u: u, pkg: w.pkgByPath(l.Pkg), vars: map[string]Val{}, heap: heap, oldHeap: heap}
+	for _, p := range l.Params {
+		var pt types.Type
+		func() {
+			defer func() { recover() }()
+			pt = w.resolveTypeText(env.pkg, p.Type)
+		}()
+		if pt == nil {
+			return nil, fmt.Errorf("%s:%d: lemma %s: bad parameter type %s", l.File, l.Line, l.Name, p.Type)
+		}
+		x := u.fresh("lemma."+p.Name, u.D.SortOf(pt))
+		if p.Type != "int" {
+			u.assumeRange(x, pt)
+		}
+		env.vars[p.Name] = Val{T: x, Typ: pt}
+		u.modelTerms = append(u.modelTerms, x)
+	}
 	t, err := env.evalBool(l.Text)
 	if err != nil {
 		return nil, fmt.Errorf("%s:%d: lemma %s: %v", l.File, l.Line, l.Name, err)
